@@ -19,6 +19,7 @@ struct TimeGen {
     t: i64,
     lo: i64,
     hi: i64,
+    last_dt: i64,
 }
 impl TimeGen {
     fn new(rng: &mut Rng) -> Self {
@@ -43,14 +44,24 @@ impl TimeGen {
             3 => (100_000_000, 10_000_000_000),
             _ => (1_000_000_000, 14_400_000_000_000),
         };
-        TimeGen { t, lo, hi }
+        TimeGen { t, lo, hi, last_dt: 0 }
     }
     fn step(&mut self, rng: &mut Rng) -> i64 {
-        let dt = if rng.chance(0.08) {
+        let mut dt = if rng.chance(0.08) {
             *rng.pick(&SPECIAL_DT)
         } else {
             rng.log_uniform(self.lo, self.hi)
         };
+        // intervals related to the previous one by a power of two (equal low 32 / 31 / 24 / 16 bits):
+        // what a cache or a narrowing cast keyed on the interval would confuse
+        if self.last_dt > 0 && rng.chance(0.03) {
+            let k = 1i64 << *rng.pick(&[32, 32, 31, 24, 16, 33]);
+            let cand = if rng.chance(0.7) { self.last_dt + k } else { self.last_dt - k };
+            if cand > 0 {
+                dt = cand;
+            }
+        }
+        self.last_dt = dt;
         self.t += dt;
         self.t
     }
